@@ -1,4 +1,6 @@
 import Mdns.Lemmas.Delay
+import Mdns.Lemmas.ClientSchedule
+import Mdns.Props.C03
 /-
   C19  Repeated queries back off 1 s, 2 s, 4 s ... capped at one hour - the arithmetic.
 
@@ -6,8 +8,10 @@ import Mdns.Lemmas.Delay
   Model: `Mdns/Model/Delay.lean` (the delay doubling of `exec_command_browse` /
   `exec_command_resolve_hostname`).
 
-  Not covered here (daemon level, later): that there is exactly one such schedule per
-  browsed type / searched host, and that every other query has one of the exempt causes.
+  The daemon level - one schedule per browsed type / searched host, the delays carried by the
+  queued retransmissions, the chain of gaps over whole histories - is in `section ClientModel`
+  below (model `Mdns/Model/Client.lean`, compared with the real daemon per iteration) and in
+  `Props/C19Daemon.lean` (scheduler fragment).
 -/
 namespace Mdns.Props.C19
 open Mdns Mdns.Delay
@@ -67,5 +71,173 @@ example : gaps 4 = .ok [1000, 2000, 4000, 8000] := by decide
 
 /-- a `next_delay` the sequence never reaches would overflow the `u32` multiplication -/
 example : step 4294968 = .panic := by decide
+
+/-! ## The client model: one schedule per search, delays 1 s, 2 s, 4 s ... 3600 s, gaps over whole histories -/
+
+section ClientModel
+open Mdns.Client
+
+/-- **(ii) One schedule per search** (`OneSchedule`), after ANY history from the start of the
+    daemon - any times, packets, commands, browse / resolve_hostname called again and again, in
+    any letter case: the queue of retransmissions holds at most one entry per browsed type and
+    at most one per host name compared without letter case.  (A second `browse` of a type or a
+    second `resolve_hostname` of a name - in whatever spelling - replaces the queued
+    retransmission instead of adding one: what the seeded changes C19-mixedcase-replace and
+    C13-mixedcase-rerun-purge break.) -/
+theorem one_schedule_client (t0 : Nat) (intfs : List Intf) (h : List (Nat × List Packet × List Command)) :
+    (∀ ty, ((run (init t0 intfs) h).1.reruns.filter (isBrowseOf ty)).length ≤ 1) ∧
+    (∀ key, ((run (init t0 intfs) h).1.reruns.filter (isResolveOf key)).length ≤ 1) := by
+  have := oneEach_run h (init t0 intfs) OneEachC.nil
+  refine ⟨fun ty => ?_, fun key => ?_⟩
+  · have h1 := this (false, ty)
+    have : (run (init t0 intfs) h).1.reruns.filter (isBrowseOf ty) =
+        (run (init t0 intfs) h).1.reruns.filter (fun r => skey r.cmd == some (false, ty)) :=
+      List.filter_congr (fun r _ => isBrowseOf_iff ty r)
+    rw [this]
+    exact h1
+  · have h1 := this (true, key)
+    have : (run (init t0 intfs) h).1.reruns.filter (isResolveOf key) =
+        (run (init t0 intfs) h).1.reruns.filter (fun r => skey r.cmd == some (true, key)) :=
+      List.filter_congr (fun r _ => isResolveOf_iff key r)
+    rw [this]
+    exact h1
+
+/-- one iteration preserves it, whatever the state -/
+theorem one_schedule_iter (s : State) (now : Nat) (pkts : List Packet) (cmds : List Command) (h : OneEachC s.reruns) :
+    OneEachC (iter s now pkts cmds).1.reruns := oneEach_iter s now pkts cmds h
+
+/-- **(i) The delay carried by a queued retransmission is between 1 s and one hour**, after ANY
+    history from the start of the daemon -/
+theorem carried_delay_in_range (t0 : Nat) (intfs : List Intf) (h : List (Nat × List Packet × List Command)) (r : Rerun)
+    (hr : r ∈ (run (init t0 intfs) h).1.reruns) :
+    (∀ ty d ch, r.cmd = .browse ty d ch → 1 ≤ d ∧ d ≤ 3600) ∧
+    (∀ host d ch, r.cmd = .resolveHost host d ch → 1 ≤ d ∧ d ≤ 3600) := by
+  have := delaysOk_run t0 intfs h r hr
+  unfold DelayOk at this
+  refine ⟨?_, ?_⟩
+  · intro ty d ch hc
+    rw [hc] at this
+    exact this
+  · intro host d ch hc
+    rw [hc] at this
+    exact this
+
+/-- **(i) ... and it doubles at each run, capped at 3600**: running the queued retransmission of
+    a browse with delay `d` at `now` sends `[(ty, PTR)]` once and queues the next run `d` seconds
+    later carrying `min (2 d) 3600` -/
+theorem browse_rerun_doubles (s : State) (now : Nat) (ty : BList) (d ch : Nat) :
+    (execRerun s now (.browse ty d ch)).1.reruns = s.reruns ++ [⟨now + d * 1000, .browse ty (min (d * 2) 3600) ch⟩] ∧
+    (execRerun s now (.browse ty d ch)).2 = [.event ch .started, sendQuery s.cache now [(ty, 12)]] := by
+  simp [execRerun, execBrowse, addRerun, Sched.nextDelay, Sched.MAX_DELAY]
+
+/-- the same for a hostname search that is still open and whose deadline allows another run -/
+theorem resolve_rerun_doubles (s : State) (now : Nat) (host : BList) (d ch : Nat)
+    (hopen : s.resolvers.any (·.1 == lower host) = true) (hdl : withinDeadline s (lower host) (now + d * 1000) = true) :
+    (execRerun s now (.resolveHost host d ch)).1.reruns =
+      s.reruns ++ [⟨now + d * 1000, .resolveHost host (min (d * 2) 3600) ch⟩] ∧
+    (execRerun s now (.resolveHost host d ch)).2 = [.event ch .hstarted, sendQuery s.cache now [(host, 1), (host, 28)]] := by
+  simp [execRerun, execResolveHost, hopen, hdl, addRerun, Sched.nextDelay, Sched.MAX_DELAY]
+
+/-- **(iii) No overflow however long the search runs.**  For every retransmission queued after
+    ANY history: the two `u32` multiplications of the Rust code (`next_delay * 1000`,
+    `next_delay * 2`) do not overflow when it is run (`Delay.step` is the arithmetic with its
+    overflow checks), the gap is at most 3 600 000 ms and the doubled delay at most 3600 s. -/
+theorem schedule_arith_safe (t0 : Nat) (intfs : List Intf) (h : List (Nat × List Packet × List Command)) (r : Rerun)
+    (hr : r ∈ (run (init t0 intfs) h).1.reruns) (d : Nat)
+    (hd : (∃ ty ch, r.cmd = .browse ty d ch) ∨ ∃ host ch, r.cmd = .resolveHost host d ch) :
+    Delay.step d = .ok (d * 1000, Sched.nextDelay d) ∧ d * 1000 ≤ 3600000 ∧ d * 2 ≤ 7200 ∧ Sched.nextDelay d ≤ 3600 := by
+  have hr' := carried_delay_in_range t0 intfs h r hr
+  have hb : 1 ≤ d ∧ d ≤ 3600 := by
+    rcases hd with ⟨ty, ch, hc⟩ | ⟨host, ch, hc⟩
+    · exact hr'.1 ty d ch hc
+    · exact hr'.2 host d ch hc
+  refine ⟨?_, by omega, by omega, (nextDelay_le d hb.1).2⟩
+  unfold Delay.step
+  have h1 : ¬ d * 1000 > Delay.U32_MAX := by simp only [Delay.U32_MAX]; omega
+  have h2 : ¬ d * 2 > Delay.U32_MAX := by simp only [Delay.U32_MAX]; omega
+  simp only [h1, h2, if_false]
+  rfl
+
+/-- **(iii) ... and the due time stays within `u64`**: the retransmission a run queues at `now` is
+    due at most 3 600 000 ms later - with the clock below 2^63 ms there is no `u64` overflow -/
+theorem due_time_bounded (s : State) (now : Nat) (ty : BList) (d ch : Nat) (hd : d ≤ 3600) (hnow : now < 2 ^ 63) :
+    ∀ r ∈ (execRerun { s with reruns := [] } now (.browse ty d ch)).1.reruns, r.next ≤ now + 3600000 ∧ r.next < 2 ^ 64 := by
+  intro r hr
+  simp only [execRerun, execBrowse, if_true, Bool.false_eq_true, if_false, addRerun, List.nil_append, List.mem_singleton] at hr
+  subst hr
+  simp only
+  omega
+
+/-! ### the chain of gaps over whole histories -/
+
+/-- the sum of the delays number `k`, ..., `k + n - 1` of the sequence (seconds) -/
+def delaySum (k : Nat) : Nat → Nat
+  | 0 => 0
+  | n + 1 => Delay.delay k + delaySum (k + 1) n
+
+/-- **The schedule starts.**  An iteration at `now` that processes `browse(ty)` on `ch` (after any
+    commands `pre`; the commands after it neither browse nor stop `ty`): the query of the call is
+    number 0, at `now`; at the end of the iteration exactly one retransmission of `ty` is queued,
+    due 1 s later and carrying the delay 2 s. -/
+theorem browse_schedule_starts (s : State) (now : Nat) (pkts : List Packet) (pre : List Command) (ty : BList) (ch : Nat)
+    (post : List Command) (h1 : OneEachC s.reruns) (hc : post.all (fun c => !touchesType ty c) = true) :
+    BrowseSched ty ch now 0 (iter s now pkts (pre ++ .browse ty ch false :: post)).1 := by
+  rw [(iter_split s now pkts pre (.browse ty ch false) post).1]
+  apply browseSched_starts ty ch _ now post _ hc
+  apply oneEach_runCommands
+  exact OneEachC.af (s' := (ingress s now pkts).1) h1 (af_ingress now pkts s)
+
+/-- **One step of the schedule** (`Client.browseSched_iter`): while the browse is neither stopped
+    nor started again, an iteration before the due time changes nothing; the first iteration at
+    or after the due time sends `[(ty, PTR)]` and queues the next retransmission `delay (k + 1)`
+    seconds later with the next delay of the sequence 1, 2, 4, ..., 2048, 3600, 3600, ... -/
+theorem browse_schedule_step (ty : BList) (ch t k : Nat) (s : State) (now : Nat) (pkts : List Packet) (cmds : List Command)
+    (h1 : OneEachC s.reruns) (hs : BrowseSched ty ch t k s) (hc : cmds.all (fun c => !touchesType ty c) = true) :
+    (now < t + Delay.delay k * 1000 → BrowseSched ty ch t k (iter s now pkts cmds).1) ∧
+    (t + Delay.delay k * 1000 ≤ now → BrowseSched ty ch now (k + 1) (iter s now pkts cmds).1 ∧
+      ∃ known, Out.query [(ty, 12)] known ∈ (iter s now pkts cmds).2) :=
+  browseSched_iter ty ch t k s now pkts cmds h1 hs hc
+
+/-- **The chain of gaps.**  From a state in which the query number `k` of the browse of `ty` went
+    out at `t`, run ANY history whose commands neither browse nor stop `ty` (iterations at any
+    times, arbitrarily late, any packets, any other searches): afterwards the schedule is at
+    some query number `k + n`, sent at a time `t'` with
+    `t' ≥ t + 1000 * (delay k + ... + delay (k + n - 1))` - every gap between two consecutive
+    schedule queries of one search is at least the delay of the sequence 1 s, 2 s, 4 s, ...,
+    2048 s, 3600 s, 3600 s, ... -/
+theorem browse_schedule_chain (ty : BList) (ch : Nat) : ∀ (h : List (Nat × List Packet × List Command)) (s : State) (t k : Nat),
+    OneEachC s.reruns → BrowseSched ty ch t k s → (∀ it ∈ h, it.2.2.all (fun c => !touchesType ty c) = true) →
+    ∃ n t', BrowseSched ty ch t' (k + n) (run s h).1 ∧ t + 1000 * delaySum k n ≤ t'
+  | [], s, t, k, _, hs, _ => ⟨0, t, by simpa [run] using hs, by simp [delaySum]⟩
+  | (now, pkts, cmds) :: rest, s, t, k, h1, hs, hc => by
+    have hstep := browseSched_iter ty ch t k s now pkts cmds h1 hs (hc _ List.mem_cons_self)
+    have h1' := oneEach_iter s now pkts cmds h1
+    by_cases hdue : t + Delay.delay k * 1000 ≤ now
+    · obtain ⟨n, t', hn, ht⟩ := browse_schedule_chain ty ch rest _ now (k + 1) h1' (hstep.2 hdue).1
+        (fun it hit => hc it (List.mem_cons_of_mem _ hit))
+      refine ⟨n + 1, t', ?_, ?_⟩
+      · simp only [run]
+        have : k + (n + 1) = k + 1 + n := by omega
+        rw [this]
+        exact hn
+      · simp only [delaySum]
+        omega
+    · obtain ⟨n, t', hn, ht⟩ := browse_schedule_chain ty ch rest _ t k h1' (hstep.1 (by omega))
+        (fun it hit => hc it (List.mem_cons_of_mem _ hit))
+      exact ⟨n, t', by simpa [run] using hn, ht⟩
+
+/-! non-vacuity: an unanswered browse, iterations at the requested wake-ups: the PTR queries of the
+    schedule go out at 1000, 2000, 4000, 8000, 16000 (gaps 1, 2, 4, 8 s) -/
+example :
+    ((run (init 1000 [C03.eth0])
+        [(1000, [], [.browse C03.ty 1 false]), (2000, [], []), (4000, [], []), (6000, [], []), (8000, [], []),
+         (16000, [], [])]).2.filterMap
+        fun o => (match o.2 with
+          | .query [(n, 12)] _ => if n == C03.ty then some o.1 else none
+          | _ => none : Option Nat)) = [1000, 2000, 4000, 8000, 16000] := by decide
+
+example : delaySum 0 13 = 1 + 2 + 4 + 8 + 16 + 32 + 64 + 128 + 256 + 512 + 1024 + 2048 + 3600 := by decide
+
+end ClientModel
 
 end Mdns.Props.C19
